@@ -111,6 +111,8 @@ fn main() {
             rep.diag(json!({"case": k, "uncaught_panic": p.message, "location": p.location}));
         }
     }
+    // scratch files of the file-API round trips (C17)
+    let _ = std::fs::remove_dir_all(std::env::temp_dir().join(format!("altrios-verif-{}", std::process::id())));
     rep.wall_s = t0.elapsed().as_secs_f64();
     let s = serde_json::to_string(&rep).unwrap();
     if args.out.is_empty() {
